@@ -31,6 +31,13 @@ CONTENTS = [
     {"cols": ["a", "b", "c", "d"], "cell": {"a": [0, 2, 4, 6], "b": [0, 2, -1, 6], "c": [2, -1, 0, 4], "d": [0, 4, -1, 6]}},
     {"cols": ["e", "a", "b"], "cell": {"e": [2, 0], "a": [0, 2], "b": [10, -1]}},      # b holds carriage returns
 ]
+# class 7: a file of more than a mebibyte (readers that work in blocks) whose strings hold line breaks
+_BIG_N = 60000
+CONTENTS.append({"cols": ["a", "b", "c"], "cell": {"a": [(0, 2, 4, 6)[i % 4] for i in range(_BIG_N)],
+                                                   "b": [(6, 0, 10, 2)[i % 4] for i in range(_BIG_N)],
+                                                   "c": [(2, -1, 0, 4)[i % 4] for i in range(_BIG_N)]}})
+BIG = len(CONTENTS)
+_SMALL = {"cols": ["a", "b", "c"], "cell": {"a": [], "b": [], "c": []}}
 MAGIC = {b"\x1f\x8b": "gz", b"BZh": "bz2", b"\xfd7zXZ\x00": "xz"}
 
 
@@ -326,7 +333,9 @@ def run_behaviour(hist):
             steps.append(e)
     finally:
         shutil.rmtree(d, ignore_errors=True)
-    return {"contents": CONTENTS, "steps": steps}
+    used = {e["c"] for e in hist if e["t"] == "write"}
+    # (the big class travels to TLC only with the histories that use it)
+    return {"contents": [c if (i + 1 != BIG or BIG in used) else _SMALL for i, c in enumerate(CONTENTS)], "steps": steps}
 
 
 def sig_of(e):
@@ -361,6 +370,8 @@ def run_for(ctx, prop):
     ALLF = ["pickle", "npz", "parquet", "csv", "json", "geojson"]
     # every configuration: one write followed by one read (whole / restricted / alias / cast)
     hists = gen(ctx, 2, len(CONTENTS), ALLF, [",", ";", "\t"], ["utf-8", "latin-1", "utf-16"])
+    big = [h for h in hists if h[0]["c"] == BIG]
+    hists = [h for h in hists if h[0]["c"] != BIG]
     # interleavings: two writes (overwrite, or another suffix of the same stem) then reads
     hists3 = gen(ctx, 3, 2, ["pickle", "csv", "json"], [","], ["utf-8"])
     hists3 = [h for h in hists3 if len(h) == 3]
@@ -379,6 +390,10 @@ def run_for(ctx, prop):
             chosen += rng.sample(strata[key], min(len(strata[key]), n))
     else:
         chosen = hists
+    # the big class: plain and compressed, whole reads and one restricted read (few: each is a 60000-row file)
+    bigsel = [h for h in big if h[0]["suffix"] in ("", ".gz") and h[0]["enc"] == "utf-8" and h[0]["sep"] in (",", "\t") and h[0]["header"]
+              and not h[-1]["alias"] and not h[-1]["cast"] and (not h[-1]["cols"]) == (prop == "C12")]
+    chosen = chosen + rng.sample(bigsel, min(len(bigsel), 3 if quick else 8))
     chosen = chosen + rng.sample(hists3, min(len(hists3), 600 if quick else 12000))
     traces = [run_behaviour(h) for h in chosen]
     bad = validate(ctx, traces)
